@@ -7,8 +7,9 @@ Import ListNotations.
 
 Notation up_to_date_c := (up_to_date project config sched fname tree tree files).
 
-(* Faithful model, every state (any earlier history), every discovery order, every fault position k:
-   a non-forced run that gets as far as writing and whose k-th write fails
+(* Faithful model (presence test in the callers), every state (any earlier history) whose record does not equal
+   the current fingerprint (the run is due to an edit or there is no record), every discovery order, every fault
+   position k: a non-forced run that gets as far as writing and whose k-th write fails
    - keeps sources and configuration;
    - if the failing write is one of the files of the plan: reports Failure, leaves the record exactly as it
      was and has written exactly the first k files;
@@ -17,32 +18,44 @@ Notation up_to_date_c := (up_to_date project config sched fname tree tree files)
    - the next non-forced run (under any order with the same fingerprint) regenerates: Success, every file
      current, record = fingerprint of the current inputs. *)
 Theorem C17_fault : forall (w : sched) (st : cstate) (k : nat) r st1,
-  run_c false w false (Some k) st = (r, st1) -> r <> NoCommands -> r <> UpToDate ->
+  run_c true w false (Some k) st = (r, st1) -> r <> NoCommands -> r <> UpToDate ->
   g_force (s_cfg st) = false ->
+  s_cache st <> Some (fp w (s_src st) (s_cfg st)) ->
   let plan := files w (s_src st) (s_cfg st) in
   s_src st1 = s_src st /\ s_cfg st1 = s_cfg st /\
   (k < length plan -> r = Failure /\ s_cache st1 = s_cache st /\
      (forall f, s_out st1 f = write_all fname tree fname_eqb (firstn k plan) (s_out st) f)) /\
   (length plan <= k -> r = Success /\ s_cache st1 = None /\ up_to_date_c w st1) /\
-  cache_hit_c false w st1 = false /\
+  cache_hit_c true w st1 = false /\
   (forall w2 r2 st2, fp w2 (s_src st) (s_cfg st) = fp w (s_src st) (s_cfg st) ->
-     run_c false w2 false None st1 = (r2, st2) ->
+     run_c true w2 false None st1 = (r2, st2) ->
      r2 = Success /\ up_to_date_c w2 st2 /\ s_cache st2 = Some (fp w2 (s_src st) (s_cfg st))).
-Proof. exact (fault_faithful project config sched fname tree tree fname_eqb tree_eqb files fp has_commands g_force false
-                fname_eqb_spec files_nodup eq_refl). Qed.
+Proof. exact (fault_faithful project config sched fname tree tree fname_eqb tree_eqb files fp has_commands g_force true
+                fname_eqb_spec tree_eqb_spec files_nodup). Qed.
 
 (* the record is written after every file of the plan: a run that writes a record has written them all *)
 Theorem C17_record_last : forall (w : sched) (flag : bool) (fault : option nat) (st : cstate) r st1,
-  run_c false w flag fault st = (r, st1) -> s_cache st1 <> s_cache st ->
+  run_c true w flag fault st = (r, st1) -> s_cache st1 <> s_cache st ->
   s_cache st1 <> None -> r = Success /\ up_to_date_c w st1.
-Proof. exact (record_last project config sched fname tree tree fname_eqb tree_eqb files fp has_commands g_force false
+Proof. exact (record_last project config sched fname tree tree fname_eqb tree_eqb files fp has_commands g_force true
+                fname_eqb_spec files_nodup). Qed.
+
+(* in every other situation (e.g. the record matches and the run was due to a lost file) the next fault-free
+   non-forced run either regenerates everything and records the current fingerprint, or is a cache hit - record
+   equal to the current fingerprint and every file of the plan present - that leaves the state alone *)
+Theorem C17_recovery_outcomes : forall (w : sched) (t : cstate) r2 st2, has_commands (s_src t) = true ->
+  run_c true w false None t = (r2, st2) ->
+  (r2 = Success /\ up_to_date_c w st2 /\ s_cache st2 = Some (fp w (s_src t) (s_cfg t))) \/
+  (r2 = UpToDate /\ st2 = t /\ cache_hit_c true w t = true).
+Proof. exact (recovery_outcomes project config sched fname tree tree fname_eqb tree_eqb files fp has_commands g_force true
                 fname_eqb_spec files_nodup). Qed.
 
 Example C17_ex_premises :
-  fst (run_c false w1 false (Some 1) (init_state p0 c0)) = Failure /\
-  fst (run_c false w1 false (Some 4) (init_state p0 c0)) = Success /\
+  fst (run_c true w1 false (Some 1) (init_state p0 c0)) = Failure /\
+  fst (run_c true w1 false (Some 4) (init_state p0 c0)) = Success /\
   length (files w1 p0 c0) = 4.
 Proof. exact c17_ex. Qed.
 
 Print Assumptions C17_fault.
 Print Assumptions C17_record_last.
+Print Assumptions C17_recovery_outcomes.
